@@ -17,7 +17,7 @@ func digits(name string, n int) (string, uint64) {
 }
 
 // "static ranges exactly as written in the template": a-b means ports a..b, a single number means a..a.
-//verif:entry HarnessRangesFromExpression unwind=12 reach=range,single,two
+//verif:entry HarnessRangesFromExpression unwind=12 conform=12 reach=range,single,two
 func HarnessRangesFromExpression() {
 	a, av := digits("a", vrt.IntRange("alen", 1, 2+vrt.Tier()))
 	switch vrt.IntRange("shape", 0, 2) {
@@ -42,7 +42,7 @@ func HarnessRangesFromExpression() {
 	}
 }
 
-//verif:entry HarnessRangesMalformed unwind=12 reach=rejected
+//verif:entry HarnessRangesMalformed unwind=12 conform=12 reach=rejected
 func HarnessRangesMalformed() {
 	// digits with one arbitrary ASCII byte that is not part of the port-expression alphabet
 	s := vrt.Bytes("expr", vrt.IntRange("len", 1, 3+vrt.Tier()))
